@@ -150,3 +150,106 @@ def proof(facts, f, line):
         how.add("parameter pair (sequence, index) that every one of the %d call sites fills with a sequence and the counter of "
                 "enumerate() over it" % len(calls))
     return "A9: index is the " + "; ".join(sorted(how))
+
+
+# ------------------------------------------------------------------------------------------
+# A10 - an index clamped to the length of the very vector it is used on
+
+def _is_len_of(e, base):
+    return isinstance(e, dict) and e.get("k") == "MethodCall" and e.get("m") == "len" and not e.get("args") and place_key(e["recv"]) == base
+
+
+def _tail(e):
+    while isinstance(e, dict) and e.get("k") == "Block" and not e.get("stmts") and "expr" in e:
+        e = e["expr"]
+    return e
+
+
+def _is_min_fn(g):
+    """g(a, b) returns min(a, b): `if a < b { a } else { b }` in its variants, a.min(b), cmp::min(a, b)"""
+    ps = [q for q in (g.get("params") or []) if q.get("p") == "Bind" and not q.get("mut")]
+    if len(ps) != 2 or len(g.get("params") or []) != 2 or "body" not in g:
+        return False
+    la, lb = ps[0]["lid"], ps[1]["lid"]
+    e = _tail(g["body"])
+
+    def loc(x):
+        x = _tail(x)
+        return x.get("lid") if x.get("k") == "Path" and x.get("res") == "Local" else None
+    if e.get("k") == "If" and "else" in e and e["cond"].get("k") == "Binary":
+        c = e["cond"]
+        x, y, t, f = loc(c["a"]), loc(c["b"]), loc(e["then"]), loc(e["else"])
+        if {x, y} != {la, lb} or None in (x, y, t, f):
+            return False
+        if c["op"] in ("<", "<="):
+            return t == x and f == y
+        if c["op"] in (">", ">="):
+            return t == y and f == x
+        return False
+    if e.get("k") == "MethodCall" and e.get("m") == "min" and len(e.get("args", [])) == 1:
+        return {loc(e["recv"]), loc(e["args"][0])} == {la, lb}
+    if e.get("k") == "Call" and str(e["f"].get("path", "")).endswith("cmp::min") and len(e.get("args", [])) == 2:
+        return {loc(e["args"][0]), loc(e["args"][1])} == {la, lb}
+    return False
+
+
+def _clamped(init, base, facts=None):
+    """init evaluates to something <= BASE.len():  if x < BASE.len() { x } else { BASE.len() }  (also <=),
+    x.min(BASE.len()), cmp::min(x, BASE.len()) in either order"""
+    init = _tail(init)
+    if init.get("k") == "If" and "else" in init:
+        c = init["cond"]
+        t, e = _tail(init["then"]), _tail(init["else"])
+        if c.get("k") == "Binary" and c.get("op") in ("<", "<=") and _is_len_of(c["b"], base) and _is_len_of(e, base) \
+                and t.get("k") == "Path" and c["a"].get("k") == "Path" and t.get("lid") == c["a"].get("lid") and t.get("lid") is not None:
+            return True
+        if c.get("k") == "Binary" and c.get("op") in (">", ">=") and _is_len_of(c["b"], base) and _is_len_of(t, base) \
+                and e.get("k") == "Path" and c["a"].get("k") == "Path" and e.get("lid") == c["a"].get("lid") and e.get("lid") is not None:
+            return True
+        return False
+    if init.get("k") == "MethodCall" and init.get("m") == "min" and len(init.get("args", [])) == 1:
+        return _is_len_of(init["args"][0], base) or _is_len_of(init["recv"], base)
+    if init.get("k") == "Call" and str(init["f"].get("path", "")).endswith("cmp::min") and len(init.get("args", [])) == 2:
+        return any(_is_len_of(a, base) for a in init["args"])
+    if facts is not None and init.get("k") == "Call" and init["f"].get("k") == "Path" and len(init.get("args", [])) == 2:
+        g = facts.fns.get(init["f"].get("rid") or init["f"].get("id"))
+        if g is not None and _is_min_fn(g):
+            return any(_is_len_of(a, base) for a in init["args"])
+    return False
+
+
+def clamp_proof(facts, f, line):
+    """`V.split_off(at)` / `V.insert(at, ..)` / `V.drain(..at)` on `line`, where `at` is an immutable local initialised by a
+    clamp to V.len() in the same block, and no statement between the two mentions V (its length is unchanged)."""
+    if "body" not in f or line is None:
+        return None
+    sites = [n for n in walk(f["body"]) if n.get("k") == "MethodCall" and n.get("ln") == line and n.get("m") in ("split_off", "insert")
+             and n.get("args")]
+    if not sites:
+        return None
+    for site in sites:
+        base = place_key(site["recv"])
+        a = site["args"][0]
+        if base is None or not (a.get("k") == "Path" and a.get("res") == "Local"):
+            return None
+        found = False
+        for b in walk(f["body"]):
+            if b.get("k") != "Block":
+                continue
+            stmts = b.get("stmts", [])
+            for i, s in enumerate(stmts):
+                if s.get("s") == "Let" and s.get("pat", {}).get("p") == "Bind" and s["pat"].get("lid") == a["lid"] \
+                        and not s["pat"].get("mut") and "init" in s and _clamped(s["init"], base, facts):
+                    # the statement holding the site, and nothing in between touches the vector
+                    for j in range(i + 1, len(stmts) + 1):
+                        item = stmts[j] if j < len(stmts) else ({"e": b["expr"]} if "expr" in b else None)
+                        if item is None:
+                            break
+                        if any(m is site for m in walk(item)):
+                            found = True
+                            break
+                        if any(m.get("k") == "Path" and m.get("res") == "Local" and ("L", m.get("lid")) == base[:2] for m in walk(item)):
+                            break
+        if not found:
+            return None
+    return "A10: the index is clamped to the length of the same vector (min(x, len)) immediately before"
